@@ -6,8 +6,8 @@
   * `paras`      — a text split into paragraphs: maximal runs of non-empty lines.
   * `governing`  — which `virtualdomains` entry applies to an address, as qmail-send.9 describes it
                    (exact domain, else the longest `.suffix` wildcard, else the catch-all).
-  * `namedRecipient` — the address a bounce must name: locals first, then virtual users, then
-                   virtual domains (the order of `rewrite()`).
+  * `namedRecipient` — the address a bounce must name: locals first, then an exception entry for the
+                   whole recipient, then virtual users, then virtual domains (the order of `rewrite()`).
   * `Sanit`      — "the failure text is shown": same bytes, except that an LF may appear as '/'.
 -/
 import Nq.Basic
@@ -104,19 +104,34 @@ def userCut (es : List (Bytes × Bytes)) (x : Bytes × Bytes) : Option Bytes :=
 def userSplit (es : List (Bytes × Bytes)) (recip : Bytes) : Option Bytes :=
   (splits recip).findSome? (userCut es)
 
-/-- the address a bounce must name for the (rewritten) recipient `recip`:
-a recipient at a domain listed in `locals` was never rewritten — as it is; otherwise a virtual-user
-prefix is removed; otherwise the governing domain entry's `prepend-` is removed if it is there -/
+/-- rules 3 and 4 (the recipient is at a non-local domain `d` and has no exception entry of its own):
+a virtual-user prefix is removed; otherwise the governing domain entry's `prepend-` is removed if the
+recipient starts with it -/
+def prefixUndone (es : List (Bytes × Bytes)) (recip d : Bytes) : Bytes :=
+  match userSplit es recip with
+  | some rest => rest
+  | none => match governing es d with
+    | some p => if !p.isEmpty && (p ++ [45]).isPrefixOf recip then recip.drop (p.length + 1) else recip
+    | none => recip
+
+/-- the recipient has a virtualdomains entry of its own with an empty prepend (`user@domain:`):
+qmail-send(8) "an empty prepend means … not a virtual domain"; `rewrite()` looks the whole address up
+first and leaves such a recipient exactly as it is (it goes to the remote channel) -/
+def hasException (es : List (Bytes × Bytes)) (recip : Bytes) : Bool := entryFor es recip == some []
+
+/-- the address a bounce must name for the recipient `recip` of a channel file, following the lookup
+order of `rewrite()` (whole address, then domain entries):
+1. a recipient at a domain listed in `locals` was never rewritten — as it is;
+2. a recipient with an exception entry of its own was never rewritten — as it is;
+3. otherwise a virtual-user prefix is removed;
+4. otherwise the governing domain entry's `prepend-` is removed if it is there -/
 def namedRecipient (ls : List Bytes) (es : List (Bytes × Bytes)) (recip : Bytes) : Bytes :=
   match domainPart recip with
   | none => recip
   | some d =>
-    if isLocal ls d then recip else
-    match userSplit es recip with
-    | some rest => rest
-    | none => match governing es d with
-      | some p => if !p.isEmpty && (p ++ [45]).isPrefixOf recip then recip.drop (p.length + 1) else recip
-      | none => recip
+    if isLocal ls d then recip
+    else if hasException es recip then recip
+    else prefixUndone es recip d
 
 /-- first line of a recipient paragraph: `<` address with LF shown as `_` `>:` LF -/
 def recipLine (addr : Bytes) : Bytes :=
@@ -127,5 +142,27 @@ def NamedInOrder (ls : List Bytes) (es : List (Bytes × Bytes)) : List (Bytes ×
   | [], [] => True
   | f :: fs, p :: ps => recipLine (namedRecipient ls es f.1) <+: p ∧ NamedInOrder ls es fs ps
   | _, _ => False
+
+/-! ### the double-bounce address, from the control-file bytes (qmail-send(8), qmail-control(5)) -/
+
+/-- trailing spaces and tabs removed -/
+def rstripBlank (l : Bytes) : Bytes := (l.reverse.dropWhile (fun c => c == SP || c == TAB)).reverse
+
+/-- qmail-control(5): a one-line control file is its first line, trailing spaces and tabs removed -/
+def specFirstLine (f : Bytes) : Bytes := rstripBlank (f.takeWhile (· != LF))
+
+/-- qmail-send(8): double bounces go to `doublebounceto@doublebouncehost`; default `postmaster` for
+the former (control/me is NOT consulted), control/me and then the literal `doublebouncehost` for the
+latter.  Arguments: the bytes of control/doublebounceto, control/doublebouncehost, control/me
+(`none` = no such file). -/
+def specDoubleBounceTo (dbto dbhost me : Option Bytes) : Bytes :=
+  (match dbto with
+   | some f => specFirstLine f
+   | none => str "postmaster")
+  ++ [AT] ++
+  (match dbhost, me with
+   | some f, _ => specFirstLine f
+   | none, some m => specFirstLine m
+   | none, none => str "doublebouncehost")
 
 end Nq.BounceSpec
